@@ -61,7 +61,7 @@ class Contract:
                  ghost=None, axioms=(), method_of=None, notes='', drop_calls=(),
                  expect_obligations=None, cover=True, exc_mode='auto', spec_module=None,
                  safety=True, witness=None, merge=True, yield_each=(), yield_key=None,
-                 concrete_ensures=(), witness_library=(), yield_each_local=()):
+                 concrete_ensures=(), witness_library=(), yield_each_local=(), region=None):
         self.id = id
         self.file = file
         self.qualname = qualname
@@ -106,6 +106,7 @@ class Contract:
         self.safety = safety
         self.witness = witness
         self.merge = merge
+        self.region = region      # callable(func_ast) -> statements: block contract on a region of the body
         self.yield_each = list(yield_each)      # P(c) proved at every yield, over entry values only
         self.yield_each_local = list(yield_each_local)   # P(c, locals at the yield): 'exists locals' semantics
         self.yield_key = yield_key              # key(c): proved fresh at every yield (=> pairwise distinct)
